@@ -5,6 +5,7 @@ go 1.12
 require (
 	github.com/dappledger/AnnChain v0.0.0
 	github.com/spf13/viper v0.0.0-20171207042631-1a0c4a370c3e
+	go.uber.org/zap v0.0.0-20170802171341-e68420e36ce8
 )
 
 replace github.com/dappledger/AnnChain => /repo
